@@ -23,15 +23,28 @@ where
     }
   }
 
+  fn is_terminated(&self) -> bool {
+    self.last_item.read().unwrap().is_none()
+      || self.last_error.read().unwrap().is_some()
+  }
   pub fn next(&self, item: Item) {
+    if self.is_terminated() {
+      return;
+    }
     *self.last_item.write().unwrap() = Some(item.clone());
     self.subject.next(item);
   }
   pub fn error(&self, err: RxError) {
+    if self.is_terminated() {
+      return;
+    }
     *self.last_error.write().unwrap() = Some(err.clone());
     self.subject.error(err);
   }
   pub fn complete(&self) {
+    if self.is_terminated() {
+      return;
+    }
     *self.last_item.write().unwrap() = None;
     self.subject.complete();
   }
